@@ -630,6 +630,34 @@ def oracle_one(res, label, ast, m=None, errs=None, count=True):
         return report(res, ast, "rejected-well-defined", label)
     return True
 
+def history_step(res, label, ast, rng, d=None):
+    """validation asked twice on ONE object with a call in between that changes it in place (assume() naming sub-propositions
+    re-binds those nodes, finding D2 of property C09): the second answer is about the object as it is then.
+    Returns a description of the failure (or None)."""
+    m = build(json.loads(json.dumps(ast_json(ast))))
+    if is_var(m):
+        return None
+    errs_of(m)
+    cids = sorted({x.id for x in occurrences(m) if not is_var(x)})
+    if d is None:
+        d = {c: rng.choice([0, 1]) for c in rng.sample(cids, min(len(cids), rng.randint(1, 2)))}
+    try:
+        m.assume(dict(d))
+        errs2 = errs_of(m)
+    except Exception:
+        return None
+    a2 = analyse(m)
+    res.evaluations += 1
+    if hasattr(res, "count"):
+        res.count("history:errors_assume_errors")
+        if a2["ill"]: res.count("history:object_ill_defined_after_assume")
+    if not errs2 and a2["ill"] and classify_accepted_ill(a2) not in ("D4", "D12"):
+        what = f"errors()==[] on an object that became ill-defined in place (errors(); assume({d}); errors() on the same object): {describe(a2)} - {canon(m)}"
+        if hasattr(res, "violation"):
+            res.violation("oracle", what, {"model": ast_json(ast), "stream": label, "kind": "history", "assume": d})
+        return what
+    return None
+
 def report(res, ast, kind, label):
     nfound = sum(1 for v in res.violations if v[0] == "oracle")
     small = shrink(ast, kind) if nfound < 5 else json.loads(json.dumps(ast_json(ast)))
@@ -815,6 +843,8 @@ def run(res, tier, seed):
             res.count("known_outside_stream")
         cases.append((lambda it, m=m, errs=errs: f"({dump(m, it)}, {lst(errs)})", (label, ast, m, errs)))
         res.sample({"stream": label, "model": repr(m), "errors": errs, "well_defined": not a["ill"]})
+        if not errs and rng.random() < 0.5:
+            history_step(res, label, ast, rng)
     if tier != "quick":
         res.exhaustive = True
         res.notes.append(f"exhaustive: all {len(small_catalog())}^2 models T=AtLeast(1,[P:AtLeast(1,[c1,'p']), Q:AtLeast(1,[c2,'q'])]) with c1,c2 from small_catalog() "
@@ -853,6 +883,11 @@ def run(res, tier, seed):
 
 def replay(payload):
     r = payload.get("replay", payload)
+    if r.get("kind") == "history":
+        class R: evaluations = 0
+        bad = history_step(R, r.get("stream", ""), r["model"], random.Random(0), d=r["assume"])
+        print("model", build(r["model"]), "history errors(); assume(%s); errors() ->" % r["assume"], "FAILS: " + bad if bad else "holds")
+        return 1 if bad else 0
     m = build(r["model"])
     errs = errs_of(m)
     a = analyse(m)
